@@ -63,7 +63,9 @@ def snap_value(v):
                 vals.append(_r12(v.func(*args)))
             except ZeroDivisionError:
                 vals.append("pole")
-        return ["transform", regs, vals]
+            except Exception as e:      # a transform whose parts no longer fit together (edited object)
+                vals.append("error:" + type(e).__name__)
+        return ["transform", regs, vals, str(getattr(v, "func_str", None))]
     if isinstance(v, sym.Expr):
         syms = sorted(v.free_symbols, key=str)
         vals = []
